@@ -203,10 +203,11 @@ def run(facts, tr, rep):
             if not b.crate.name.startswith("tower_resilience_reconnect"):
                 continue
             rep.saw(b)
-            a = peel(tr.expand(tr.operand(b, cs.args[1], cs.loc)))
-            while a[0] == "cast":
-                a = peel(a[2])
-            ok = all(any(x[0] == "field" and "attempt" in str(x[2]) for x in tr.walk(lf, limit=40)) for lf in leaves(a))
+            from .c16 import _discover_counter
+            polls = [x for x in facts.crates[b.crate.name].bodies if x.name == "poll" and x.impl and x.impl.get("trait") == "core::future::future::Future"]
+            cnts = {_discover_counter(tr, x) for x in polls} - {None}
+            a = peel(tr.expand(tr.operand(b, cs.args[1], cs.loc), upvars=True, params=True))
+            ok = bool(cnts) and all(any(x[0] == "field" and x[2] in cnts for x in tr.walk(lf, limit=40)) for lf in leaves(a))
             rep.ob("C14.ATTEMPT", skey(b, "delay_for_attempt-arg"), ok, cs.where(),
                    "reconnect passes its attempt counter (%s) to the policy" % show(a) if ok else "delay_for_attempt receives %s" % show(a))
 
